@@ -106,14 +106,18 @@ def errors_for(code, rng, tier, exhaustive_bits=None):
 def valid_task(task):
     decname, cls, size, dn, ax, direction, p, tier, seed, outdir = task
     from panqec.error_models import PauliErrorModel
+    opts = {}
+    if '|' in decname:          # decoder options other than the defaults
+        decname, o_ = decname.split('|', 1)
+        opts = json.loads(o_)
     rng = random.Random('%s/%s/%s/%s/%s/%d' % (decname, cls, size, dn, direction, seed))
     rec = {'decoder': decname, 'cls': cls, 'size': list(size), 'deformation': dn, 'axis': ax, 'direction': list(direction), 'p': p,
-           'decodes': [], 'n_decodes': 0, 'kinds': {}}
+           'options': opts, 'decodes': [], 'n_decodes': 0, 'kinds': {}}
     try:
         with contextlib.redirect_stdout(io.StringIO()):
             code = build_code(cls, size, dn, ax)
             em = PauliErrorModel(*direction, deformation_name=dn, deformation_kwargs=({'deformation_axis': ax} if ax else {}))
-            dec = make_decoder(decname, code, em, p)
+            dec = make_decoder(decname, code, em, p, **opts)
     except Exception as ex:
         rec['construct_error'] = '%s: %s' % (type(ex).__name__, ex)
         return rec
@@ -172,10 +176,19 @@ def main():
                 variants = [(None, None)]
                 if decname in ('BeliefPropagationOSDDecoder',):
                     variants += [(nm, ax) for nm in klass.deformation_names for ax in (dc.AXES.get(cls, [None])[:1] if tier == 'quick' else dc.AXES.get(cls, [None])[:2])]
+                OPTS = {'BeliefPropagationOSDDecoder': [{}, {'osd_order': 3}, {'bp_method': 'product_sum'}, {'channel_update': True}, {'max_bp_iter': 1},
+                                                        {'osd_order': 10, 'max_bp_iter': 30}],
+                        'MemoryBeliefPropagationDecoder': [{}, {'alpha': 0.75}, {'beta': 0.1}],
+                        'RotatedSweepMatchDecoder': [{}, {'max_rounds': 4}]}
+                oi = 0
                 for size in sz:
                     for (dn, ax) in variants:
                         for direction in (rng.sample(DIRS, 1 if decname == 'BeliefPropagationOSDDecoder' else 2) if tier == 'quick' else DIRS):
-                            tasks.append((decname, cls, size, dn, ax, direction, rng.choice([0.02, 0.1, 0.3]), tier, seed, outdir))
+                            ol = OPTS.get(decname, [{}])
+                            o_ = ol[oi % len(ol)]       # the option sets take turns over the configurations
+                            oi += 1
+                            tasks.append((decname + ('|' + json.dumps(o_) if o_ else ''), cls, size, dn, ax, direction, rng.choice([0.02, 0.1, 0.3]),
+                                          tier, seed, outdir))
                         # noise deformation on an undeformed code (matching weights per qubit)
                         if dn is None and klass.deformation_names and decname in ('MatchingDecoder', 'SweepMatchDecoder', 'RotatedSweepMatchDecoder'):
                             tasks.append((decname, cls, size, None, None, (0.1, 0.1, 0.8), 0.1, tier, seed, outdir))
